@@ -55,9 +55,9 @@ Definition corr_ok (c : case) : bool :=
   (is_nil (c_ast c) || str_eqb (print (c_braces c) (c_ast c)) (c_text c))
   && agrees (read_cgsmiles (fo_of_table (c_fo c)) (c_text c)) (c_impl c).
 
-(** known-defect classes of C04, numbered; 0 = none *)
-Definition class_C04 (braces : bool) (a : chain) : nat :=
-  if cls_double_close a then 1%nat else 0%nat.
+(** known-defect classes of C04, numbered; 0 = none.  None is left: pct_at_end, nodemult_sym and
+    double_close are repaired in the code (fd2fb55, f80d9d3, 0460546) *)
+Definition class_C04 (braces : bool) (a : chain) : nat := 0%nat.
 (** 0 = holds (or not judged); 1 = wrong graph, 2 = exception on a valid string; +10*class; 7 = harness error *)
 Definition holds_C04 (fo : float_oracle) (a : chain) (out : outcome) : nat :=
   match denote fo a with
